@@ -6,6 +6,13 @@ package sim
 // chunked delivery into all-at-once except where it matters, and removes
 // tasks and context switches.
 func Shrink(tape []uint32, fails func([]uint32) bool, max int) []uint32 {
+	return ShrinkWithProgress(tape, fails, max, nil)
+}
+
+// ShrinkWithProgress reports every accepted (still failing) tape to progress,
+// so that a caller who has to abandon the search - a candidate may make the
+// code under test loop for ever - keeps the best tape found so far.
+func ShrinkWithProgress(tape []uint32, fails func([]uint32) bool, max int, progress func([]uint32)) []uint32 {
 	cur := append([]uint32(nil), tape...)
 	attempts := 0
 	try := func(c []uint32) bool {
@@ -15,6 +22,9 @@ func Shrink(tape []uint32, fails func([]uint32) bool, max int) []uint32 {
 		attempts++
 		if fails(c) {
 			cur = append(cur[:0:0], c...)
+			if progress != nil {
+				progress(append([]uint32(nil), cur...))
+			}
 			return true
 		}
 		return false
